@@ -28,7 +28,7 @@ type Case struct {
 	// restart: the master is busy - its reconciliation answers come 1.5 s after the call and offers take 3 s - and a new
 	// environment is requested from the restarted core at once, so the answers arrive while its deployment is in progress
 	CreateDuringReconcile bool
-	SlowKillCalls         bool // restart: the master takes 100 ms to answer each KILL call (many survivors: the answers outrun the kills)
+	SlowKillCalls         bool // restart: the master takes 250 ms to answer each KILL call (many survivors: the answers outrun the kills)
 }
 
 var hostNames = []string{"hosta", "hostb", "hostc"}
@@ -98,7 +98,7 @@ func run(c Case) (res vh.Result) {
 			return simworld.KillPlan{Delay: 3 * time.Second}
 		}
 		if slowKillCalls {
-			return simworld.KillPlan{CallDelay: 100 * time.Millisecond}
+			return simworld.KillPlan{CallDelay: 250 * time.Millisecond}
 		}
 		// (every refusal costs a resubscription with a doubling backoff: 1, 2, 4 s ...; at most three tasks are refused so that the
 		// 20 s allowed below stay far from what the backoff alone needs)
